@@ -1,6 +1,7 @@
 package main
 
 import (
+	"reflect"
 	"fmt"
 	"strings"
 
@@ -266,6 +267,8 @@ func oracleC09(res *Result, c *Case, seedPick int) {
 			var gs string
 			if ok, _ := catch(func() { gs = fmt.Sprintf("%#v", tg.v) }); !ok {
 				res.fail(c, "C09", st.Name+" %#v: panic", "C09:panic")
+			} else if reflect.TypeOf(e).Kind() == reflect.String {
+				// a named string type (runtime.plainError): Go syntax is the quoted string
 			} else if !strings.Contains(gs, strings.TrimPrefix(fmt.Sprintf("%T", e), "*")) {
 				res.fail(c, "C09", fmt.Sprintf("%s %s %%#v does not name the type %T: %q", st.Name, tg.name, e, clipLen(gs, 120)), "C09:gosyntax")
 			}
